@@ -112,6 +112,8 @@ def _body(si, mask, sepi):
         got = rm.data_lines(rm.parse(out))
         exp = [ln.cells for ln in groups[i] if ln.kind == 'data']
         check(got == exp, f'pair {i} = {(lo, hi)} of {idx} exports data lines {got}, fragment {i} has {exp}; fragments {texts}')
+        out2 = kp.export(doc, kp.ExportOptions(from_measure=lo, to_measure=hi))
+        check(out2 == out, f'pair {i} = {(lo, hi)} through ExportOptions + export gives {out2!r}, through dumps {out!r}')
     return True
 
 
